@@ -55,7 +55,7 @@ inductive Pat where
 
 /-- Trait methods called through fully qualified paths. -/
 inductive TraitFn where
-  | eq | partialCmp | cmp | hash | clone | default | zeroize
+  | eq | partialCmp | cmp | hash | clone | zeroize
   deriving DecidableEq, Repr, Inhabited
 
 /-- Functions of `::core` (and of the expansion itself) that are called. -/
@@ -113,6 +113,8 @@ inductive Expr where
   | unitCtor (k : Nat)
   /-- the user's explicit discriminant expression of variant `k` -/
   | userDiscr (k : Nat)
+  /-- `<Default path>::default()` producing the value of field `i` of variant `k` -/
+  | defaultCall (k i : Nat)
   | call (f : Fn) (args : List Expr)
   /-- the same with a trailing comma after the last argument -/
   | callT (f : Fn) (args : List Expr)
